@@ -21,7 +21,7 @@ class NB(fm.Adapter, NoBranchAdapter):
         return self.pull_data(time, target)
 
 
-AD = {"S": lambda: D.Scale(1.0), "L": D.LinearTime, "N": NB, "F": lambda: D.DelayFixed(H(1)), "P": lambda: D.DelayToPull(steps=1)}
+AD = {"S": lambda: D.Scale(1.0), "L": D.LinearTime, "N": NB, "F": lambda: D.DelayFixed(H(1)), "P": lambda: D.DelayToPull(steps=1), "U": D.DelayToPush}
 NOBRANCH = set("LNP")
 NEEDS_PUSH = set("L")
 
